@@ -721,49 +721,42 @@ Lemma filter_names_length (p : N -> bool) jobs :
 Proof. induction jobs as [|a r IH]; cbn; [reflexivity|]. destruct (p (j_name a)); cbn; rewrite IH; reflexivity. Qed.
 
 Lemma reset_counts rerun upd jobs :
-  (forall j, In j jobs -> memN (j_name j) rerun = true \/ j_state j <> NOT_SUBMITTED) ->
-  cnt NOT_SUBMITTED (map (reset_job rerun upd) jobs) = Z.of_nat (length (filter (fun j => memN (j_name j) rerun) jobs))
+  cnt SUBMITTED (map (reset_job rerun upd) jobs) + cnt DONE (map (reset_job rerun upd) jobs)
+  = Z.of_nat (length (filter (fun j => negb (memN (j_name j) rerun) && negb (jstate_eqb (j_state j) NOT_SUBMITTED)) jobs))
   /\ cnt DONE (map (reset_job rerun upd) jobs)
      = Z.of_nat (length (filter (fun j => negb (memN (j_name j) rerun) && jstate_eqb (j_state j) DONE) jobs)).
 Proof.
-  induction jobs as [|a r IH]; intros H; [split; reflexivity|].
-  destruct IH as [IH1 IH2]; [intros j Hj; apply H; right; exact Hj|].
-  cbn [map filter]. rewrite !cnt_cons, IH1, IH2. unfold reset_job.
-  destruct (memN (j_name a) rerun) eqn:E; cbn [j_state jstate_eqb b2z negb andb length].
+  assert (Hst : forall a, j_state (reset_job rerun upd a) = if memN (j_name a) rerun then NOT_SUBMITTED else j_state a).
+  { intros a. unfold reset_job. destruct (memN (j_name a) rerun); reflexivity. }
+  induction jobs as [|a r [IH1 IH2]]; [split; reflexivity|].
+  cbn [map filter]. rewrite !cnt_cons, !Hst.
+  destruct (memN (j_name a) rerun) eqn:E; cbn [jstate_eqb b2z negb andb].
   - split; lia.
-  - destruct (H a (or_introl eq_refl)) as [Hm|Hs]; [congruence|].
-    apply jstate_eqb_neq in Hs. rewrite Hs.
-    destruct (jstate_eqb (j_state a) DONE); cbn [b2z length]; split; lia.
+  - destruct (j_state a); cbn [jstate_eqb b2z negb andb length]; rewrite ?Nat2Z.inj_succ; split; lia.
 Qed.
 
-Theorem resubmit_spec s rerun upd : inv s -> resubmit_ok s rerun = true ->
+Theorem resubmit_spec s rerun upd : inv s -> c_complete (st_cfg s) = true ->
   exists s', prepare_for_resubmission s rerun upd = Ok s' /\ inv s'
     /\ c_complete (st_cfg s') = false
     /\ c_num (st_cfg s') = c_num (st_cfg s)
-    /\ c_submitted (st_cfg s') = c_num (st_cfg s) - Z.of_nat (length rerun)
     /\ js_jobs (st_js s') = map (reset_job rerun upd) (js_jobs (st_js s))
     /\ c_version (st_cfg s) < c_version (st_cfg s')
     /\ js_version (st_js s) < js_version (st_js s')
-    /\ c_canceled (st_cfg s') = c_canceled (st_cfg s).
+    /\ c_canceled (st_cfg s') = c_canceled (st_cfg s)
+    /\ st_rows s' = diffN (st_rows s) rerun.
 Proof.
-  intros [[Hnd [Hnum Hhash]] [I1 [I2 [I3 [I4 [I5 I6]]]]]] Hok.
-  unfold resubmit_ok in Hok.
-  repeat (apply andb_true_iff in Hok; let H := fresh "K" in destruct Hok as [Hok H]).
-  rename Hok into Kc. apply nodupbN_spec in K1. rewrite subsetN_spec in K0. rewrite forallb_forall in K.
+  intros [[Hnd [Hnum Hhash]] [I1 [I2 [I3 [I4 [I5 I6]]]]]] Kc.
   set (jobs := js_jobs (st_js s)) in *.
-  assert (HK : forall j, In j jobs -> memN (j_name j) rerun = true \/ j_state j <> NOT_SUBMITTED).
-  { intros j Hj. specialize (K j Hj). apply orb_true_iff in K. destruct K as [K|K]; [left; exact K|].
-    right. apply jstate_eqb_neq. apply negb_true_iff. exact K. }
-  destruct (reset_counts rerun upd jobs HK) as [Cns Cdone].
-  assert (Hrl : length (filter (fun j => memN (j_name j) rerun) jobs) = length rerun).
-  { rewrite (filter_names_length (fun n => memN n rerun)). apply filter_mem_length; assumption. }
-  unfold prepare_for_resubmission. rewrite Kc. cbn [negb]. fold jobs.
+  destruct (reset_counts rerun upd jobs) as [Csub Cdone].
+  unfold prepare_for_resubmission, resubmit_with. rewrite Kc. cbn [negb]. fold jobs.
   change (map (fun j => if memN (j_name j) rerun
                         then {| j_name := j_name j; j_state := NOT_SUBMITTED; j_blocked := lookup_blk (j_name j) upd;
                                 j_cancel := j_cancel j |} else j) jobs) with (map (reset_job rerun upd) jobs).
   set (jobs' := map (reset_job rerun upd) jobs) in *.
+  unfold resubmit_counters.
+  set (ns := Z.of_nat (length (filter (fun j => negb (memN (j_name j) rerun) && negb (jstate_eqb (j_state j) NOT_SUBMITTED)) jobs))) in *.
   set (nd := Z.of_nat (length (filter (fun j => negb (memN (j_name j) rerun) && jstate_eqb (j_state j) DONE) jobs))) in *.
-  set (c1 := {| c_num := c_num (st_cfg s); c_submitted := c_num (st_cfg s) - Z.of_nat (length rerun);
+  set (c1 := {| c_num := c_num (st_cfg s); c_submitted := ns;
                 c_completed := nd; c_complete := false; c_canceled := c_canceled (st_cfg s);
                 c_submitter := c_submitter (st_cfg s); c_version := c_version (st_cfg s) |}).
   destruct (ser_spec (st_cfg s) c1 (st_hash s) Hhash eq_refl) as [Sh [Sc [Sv1 Sv2]]].
@@ -775,27 +768,24 @@ Proof.
   assert (Hnames : names jobs' = names jobs).
   { unfold jobs', names. rewrite map_map. apply map_ext. intros j. unfold reset_job. destruct (memN (j_name j) rerun); reflexivity. }
   assert (Hlen : length jobs' = length jobs) by (apply names_length; exact Hnames).
-  pose proof (cnt_total jobs') as Htot.
   assert (Hdone' : c_completed c' = cnt DONE jobs') by (rewrite F3, Cdone; reflexivity).
-  assert (Hsub' : c_submitted c' = cnt SUBMITTED jobs' + cnt DONE jobs').
-  { rewrite F2. rewrite Cns, Hrl, Hlen in Htot. fold jobs in Hnum. lia. }
+  assert (Hsub' : c_submitted c' = cnt SUBMITTED jobs' + cnt DONE jobs') by (rewrite F2, Csub; reflexivity).
   assert (Hnum' : c_num c' = Z.of_nat (length jobs')) by (rewrite F1, Hlen; exact Hnum).
-  (* every job that is neither rerun nor done would be SUBMITTED; all non-rerun jobs keep their entry *)
   assert (Hvers : c_version (st_cfg s) < c_version c').
   { destruct (Z.eq_dec (c_version (st_cfg s)) (c_version c')) as [E|E]; [|lia].
     destruct (Sv2 E) as [E1 _]. exfalso. assert (c_complete c1 = c_complete (st_cfg s)) by (rewrite E1; reflexivity).
     cbn in H. congruence. }
   eexists. split; [reflexivity|]. simpl_st. split; [|repeat split; auto; try lia].
-  - split.
-    + unfold wf. simpl_st. split; [rewrite Hnames; exact Hnd|]. split; [exact Hnum'|]. right. exact Sh.
-    + unfold status_inv. simpl_st.
-      destruct (status_ineq c' jobs' Hnum' Hdone' Hsub') as [J1 J2].
-      split; [exact J1|]. split; [exact J2|]. split; [exact Hdone'|]. split; [exact Hsub'|]. split.
-      * intros j Hj Hs. apply in_map_iff in Hj. destruct Hj as [j0 [<- Hj0]]. unfold reset_job in *.
-        destruct (memN (j_name j0) rerun); [exfalso; apply Hs; reflexivity|]. exact (I5 j0 Hj0 Hs).
-      * intros j Hj Hs. apply in_map_iff in Hj. destruct Hj as [j0 [<- Hj0]]. unfold reset_job in *.
-        destruct (memN (j_name j0) rerun) eqn:E; [discriminate Hs|].
-        apply diffN_spec. split; [exact (I6 j0 Hj0 Hs)|]. apply memN_false. exact E.
+  split.
+  - unfold wf. simpl_st. split; [rewrite Hnames; exact Hnd|]. split; [exact Hnum'|]. right. exact Sh.
+  - unfold status_inv. simpl_st.
+    destruct (status_ineq c' jobs' Hnum' Hdone' Hsub') as [J1 J2].
+    split; [exact J1|]. split; [exact J2|]. split; [exact Hdone'|]. split; [exact Hsub'|]. split.
+    + intros j Hj Hs. apply in_map_iff in Hj. destruct Hj as [j0 [<- Hj0]]. unfold reset_job in *.
+      destruct (memN (j_name j0) rerun); [exfalso; apply Hs; reflexivity|]. exact (I5 j0 Hj0 Hs).
+    + intros j Hj Hs. apply in_map_iff in Hj. destruct Hj as [j0 [<- Hj0]]. unfold reset_job in *.
+      destruct (memN (j_name j0) rerun) eqn:E; [discriminate Hs|].
+      apply diffN_spec. split; [exact (I6 j0 Hj0 Hs)|]. apply memN_false. exact E.
 Qed.
 
 Lemma mono_same s s' : st_cfg s' = st_cfg s -> st_js s' = st_js s -> st_rows s' = st_rows s -> mono s s'.
@@ -934,18 +924,21 @@ Proof. intros W I. exact (are_all_complete_spec s (conj W I)). Qed.
 Lemma step_inv s o : wf s -> status_inv s -> op_ok s o = true ->
   exists s', step s o = Ok s' /\ wf s' /\ status_inv s' /\ (is_resubmit o = false -> mono s s').
 Proof. intros W I H. destruct (step_spec s o (conj W I) H) as [s' [E [[W' I'] M]]]. exists s'. auto. Qed.
-Lemma resubmit_reset s rerun upd : wf s -> status_inv s -> resubmit_ok s rerun = true ->
+Lemma resubmit_reset s rerun upd : wf s -> status_inv s -> c_complete (st_cfg s) = true ->
   exists s', prepare_for_resubmission s rerun upd = Ok s' /\ wf s' /\ status_inv s'
     /\ c_complete (st_cfg s') = false
     /\ c_num (st_cfg s') = c_num (st_cfg s)
-    /\ c_submitted (st_cfg s') = c_num (st_cfg s) - Z.of_nat (length rerun)
     /\ js_jobs (st_js s') = map (reset_job rerun upd) (js_jobs (st_js s))
     /\ c_version (st_cfg s) < c_version (st_cfg s')
     /\ js_version (st_js s) < js_version (st_js s')
-    /\ c_canceled (st_cfg s') = c_canceled (st_cfg s).
+    /\ c_canceled (st_cfg s') = c_canceled (st_cfg s)
+    /\ st_rows s' = diffN (st_rows s) rerun.
 Proof.
   intros W I H. destruct (resubmit_spec s rerun upd (conj W I) H) as [s' [E [[W' I'] R]]]. exists s'. auto.
 Qed.
+Lemma resubmit_not_complete_asserts s rerun upd : c_complete (st_cfg s) = false ->
+  prepare_for_resubmission s rerun upd = Err EAssert.
+Proof. intros H. unfold prepare_for_resubmission, resubmit_with. rewrite H. reflexivity. Qed.
 Lemma versions_strict s s' : mono s s' ->
   (st_cfg s <> st_cfg s' -> c_version (st_cfg s) < c_version (st_cfg s'))
   /\ (st_js s <> st_js s' -> js_version (st_js s) < js_version (st_js s')).
@@ -953,4 +946,25 @@ Proof.
   unfold mono. intros [_ [_ [_ [_ [_ [_ [V1 [V2 [V3 [V4 _]]]]]]]]]]. split; intros Hne.
   - destruct (Z.eq_dec (c_version (st_cfg s)) (c_version (st_cfg s'))) as [E|E]; [exfalso; auto|lia].
   - destruct (Z.eq_dec (js_version (st_js s)) (js_version (st_js s'))) as [E|E]; [exfalso; auto|lia].
+Qed.
+
+(* ---------- HISTORY: the counters prepare_for_resubmission computed before /repo commit ce6353a ---------- *)
+Definition old_witness_spec : list (N * list N * bool) := [(1%N, [], false); (2%N, [], false)].
+Definition old_witness_ops : list op :=
+  [ OpRound {| ra_pre := []; ra_submitted := [1%N]; ra_blocked := []; ra_canceled := []; ra_completed := [];
+               ra_hpc := [100%N]; ra_batch := 2; ra_new_rows := [] |};
+    OpMarkCanceled;
+    OpRound {| ra_pre := []; ra_submitted := []; ra_blocked := []; ra_canceled := []; ra_completed := [];
+               ra_hpc := []; ra_batch := 2; ra_new_rows := [] |};
+    OpMarkComplete ].
+Lemma resubmit_old_refuted :
+  exists s s', run_ok (create old_witness_spec) old_witness_ops = true
+    /\ run (create old_witness_spec) old_witness_ops = Ok s
+    /\ prepare_for_resubmission_old s [] [] = Ok s'
+    /\ c_submitted (st_cfg s') = 2 /\ cnt SUBMITTED (js_jobs (st_js s')) + cnt DONE (js_jobs (st_js s')) = 1
+    /\ ~ status_inv s'.
+Proof.
+  eexists. eexists. split; [vm_compute; reflexivity|]. split; [vm_compute; reflexivity|].
+  split; [vm_compute; reflexivity|]. split; [reflexivity|]. split; [reflexivity|].
+  intros [_ [_ [_ [H _]]]]. vm_compute in H. discriminate H.
 Qed.
